@@ -135,3 +135,12 @@ def queries():
             ("ccm8", "ccm", ["-DTAGLEN=8"], ccm, "CCM_8", 56, "quick"), ("chapol", "chapol", [], (), "ChaCha20+Poly1305", 56, "quick")):
         qs.append(rt("rt-%s-full-B%d" % (nm, buf), mode, None, buf, defs=defs, units=units, what=what, tier=tier))
     return qs
+
+
+# ---- cross-included by the main session: the client's RSA key-exchange message (premaster with the client's maximum
+# version, master secret from the same bytes) is the C-level mechanism on which "both sides derive the same session"
+# rests for TLS_RSA suites (anchor src/ssl/ssl_hs_client.c); decided by the C03 query family client-make_pms_rsa.
+_c01_queries = queries
+def queries():
+    import C03
+    return _c01_queries() + [q for q in C03.queries() if q.name.startswith("client-make_pms_rsa") and q.tier == "quick"]
